@@ -50,6 +50,10 @@ func CreatePodFromDaemonSetReplicaSet(scheme *runtime.Scheme, replicaset *datado
 		hash := comparison.GenerateHashFromEDSResourceNodeAnnotation(replicaset.Namespace, edsName, node.Annotations)
 		if hash != "" {
 			templateCopy.ObjectMeta.Annotations[datadoghqv1alpha1.MD5NodeExtendedDaemonSetAnnotationKey] = hash
+		} else {
+			// the node carries no override: a value for this key found in the pod template (e.g. a template
+			// copied from a running pod) would make the pod look outdated for ever
+			delete(templateCopy.ObjectMeta.Annotations, datadoghqv1alpha1.MD5NodeExtendedDaemonSetAnnotationKey)
 		}
 	}
 
